@@ -6,8 +6,8 @@ infrastructure object; that it equals the phasor definition is C06's business an
 import z3
 from pyvc.vtypes import FA
 from pyvc.contracts_api import REG, C, RaiseSpec, LoopSpec
-from pyvc.dsl import And, Or, Not, Implies, If, Eq, AllIdx, AnyIdx, IsNone
-from pyvc.vtypes import Real, Int, Bool, Id, Ref, Opt, Seq, RefSort
+from pyvc.dsl import And, Or, Not, Implies, If, Eq, AllIdx, AnyIdx, IsNone, With
+from pyvc.vtypes import Real, Int, Bool, Id, Ref, Opt, Seq, Map, RefSort
 from pyvc import vtypes as ty
 
 U = "acnportal.algorithms.utils."
@@ -454,3 +454,254 @@ _sort_contract("last_come_first_served", lambda s, e: e.arrival, True)
 _sort_contract("earliest_deadline_first", lambda s, e: e.estimated_departure, False)
 _sort_contract("least_laxity_first", laxity_key, False, requires=[C("max_pilot_nonzero", max_pilots_nonzero), C("interface", lambda s: iface_ok(s, s.iface, s.evs))])
 _sort_contract("largest_remaining_processing_time", rpt_key, True, requires=[C("max_pilot_nonzero", max_pilots_nonzero), C("interface", lambda s: iface_ok(s, s.iface, s.evs))])
+
+
+def _appended_if(cond, seq_view, x):
+    """the sequence with x appended when cond holds, unchanged otherwise"""
+    v = seq_view.v
+    return ty.SeqV(v.elem, [z3.If(cond, z3.Store(v.arrs[0], v.len, ty.to_z3num(x)), v.arrs[0])], z3.If(cond, v.len + 1, v.len))
+
+
+# ============================================================================ preprocessing (C07)
+PRE = "acnportal.algorithms.preprocessing."
+UTL = "acnportal.algorithms.utils."
+
+REG.contract(
+    UTL + "remaining_amp_periods", params=dict(session=Ref("SessionInfo"), infrastructure=Ref("InfrastructureInfo"), period=Real), ret=Real, modifies=[],
+    requires=[C("known_station_nonzero_voltage_and_period", lambda s: And(
+        infra_wf(s, s.infrastructure), s.infrastructure._station_ids_dict.has(s.session.station_id), s.period != 0,
+        ty.sel(s.infrastructure.voltages.v.arrs[0], st_index(s.infrastructure, s.session.station_id)) != 0))],
+    extra=dict(returns=lambda old: (old.session.requested_energy - old.session.energy_delivered) * 1000
+               / ty.sel(old.infrastructure.voltages.v.arrs[0], st_index(old.infrastructure, old.session.station_id)) * 60 / old.period,
+               returns_props=("C07",)))
+
+
+def threshold_of(inf, sess, period):
+    """energy delivered by one period at the station's minimum pilot [kWh]"""
+    idx = st_index(inf, sess.station_id)
+    return ty.sel(inf.min_pilot.v.arrs[0], idx) * ty.sel(inf.voltages.v.arrs[0], idx) / (60 / period) / 1000
+
+
+def _unfinished(s, inf, sess, period):
+    return (sess.requested_energy - sess.energy_delivered) > threshold_of(inf, sess, period)
+
+
+def _rfs_inv(s):
+    """ghost: src[a] = input position of the a-th kept session; rank[i] = position among the kept sessions of input session i (-1 if dropped)"""
+    inp, out, src, rank, inf = s.active_sessions, s.modified_sessions, s.src, s.rank, s.infrastructure
+    a, b, i = z3.Int("a!rfs"), z3.Int("b!rfs"), z3.Int("i!rfs")
+    sa = lambda x: ty.sel(src.v.arrs[0], x)
+    rk = lambda x: ty.sel(rank.v.arrs[0], x)
+    return [
+        ("ghost_lengths", And(src.len == out.len, rank.len == s._k)),
+        ("kept_sessions_are_unfinished_input_sessions", FA([a], z3.Implies(z3.And(a >= 0, a < out.len), z3.And(
+            sa(a) >= 0, sa(a) < s._k, ty.sel(out.v.arrs[0], a) == ty.sel(inp.v.arrs[0], sa(a)), _unfinished(s, inf, sess_at(s, inp, sa(a)), s.period))),
+            patterns=[ty.sel(out.v.arrs[0], a)])),
+        ("input_order_is_kept", FA([a, b], z3.Implies(z3.And(a >= 0, a < b, b < out.len), sa(a) < sa(b)), patterns=[z3.MultiPattern(sa(a), sa(b))])),
+        ("every_unfinished_session_seen_so_far_is_kept", FA([i], z3.Implies(z3.And(i >= 0, i < s._k, _unfinished(s, inf, sess_at(s, inp, i), s.period)),
+            z3.And(rk(i) >= 0, rk(i) < out.len, sa(rk(i)) == i)), patterns=[rk(i)])),
+    ]
+
+
+def _rfs_post(old, new, ret):
+    inp, inf = old.active_sessions, old.infrastructure
+    a, b, i = z3.Int("a!rfp"), z3.Int("b!rfp"), z3.Int("i!rfp")
+    src, rank = new.src, new.rank
+    sa = lambda x: ty.sel(src.v.arrs[0], x)
+    rk = lambda x: ty.sel(rank.v.arrs[0], x)
+    ghost_kept = FA([a], z3.Implies(z3.And(a >= 0, a < ret.len), z3.And(sa(a) >= 0, sa(a) < inp.len, ty.sel(ret.v.arrs[0], a) == ty.sel(inp.v.arrs[0], sa(a)),
+                                                                         _unfinished(old, inf, sess_at(old, inp, sa(a)), old.period))), patterns=[ty.sel(ret.v.arrs[0], a)])
+    ghost_all = FA([i], z3.Implies(z3.And(i >= 0, i < inp.len, _unfinished(old, inf, sess_at(old, inp, i), old.period)),
+                                   z3.And(rk(i) >= 0, rk(i) < ret.len, ty.sel(ret.v.arrs[0], rk(i)) == ty.sel(inp.v.arrs[0], i))), patterns=[rk(i)])
+    ghost_order = FA([a, b], z3.Implies(z3.And(a >= 0, a < b, b < ret.len), sa(a) < sa(b)), patterns=[z3.MultiPattern(sa(a), sa(b))])
+    return [
+        ("C07.kept_sessions_are_unfinished_input_sessions", With(FA([a], z3.Implies(z3.And(a >= 0, a < ret.len), z3.Exists([i], z3.And(
+            i >= 0, i < inp.len, ty.sel(ret.v.arrs[0], a) == ty.sel(inp.v.arrs[0], i), _unfinished(old, inf, sess_at(old, inp, i), old.period)))),
+            patterns=[ty.sel(ret.v.arrs[0], a)]), [ghost_kept])),
+        ("C07.every_unfinished_session_is_kept", With(FA([i], z3.Implies(z3.And(i >= 0, i < inp.len, _unfinished(old, inf, sess_at(old, inp, i), old.period)),
+            z3.Exists([a], z3.And(a >= 0, a < ret.len, ty.sel(ret.v.arrs[0], a) == ty.sel(inp.v.arrs[0], i)))), patterns=[ty.sel(inp.v.arrs[0], i)]), [ghost_all])),
+        ("still_a_valid_session_list", With(sessions_ok(old, ret, inf, "rfo"), [ghost_kept, ghost_order])),
+    ]
+
+
+REG.contract(
+    PRE + "remove_finished_sessions",
+    params=dict(active_sessions=Seq(Ref("SessionInfo")), infrastructure=Ref("InfrastructureInfo"), period=Real), ret=Seq(Ref("SessionInfo")), modifies=[],
+    requires=[C("infrastructure_wf", lambda s: infra_wf(s, s.infrastructure)), C("sessions", lambda s: sessions_ok(s, s.active_sessions, s.infrastructure)),
+              C("period_nonzero", lambda s: s.period != 0)],
+    ensures=[C("C07.remove_finished_sessions", _rfs_post)],
+    loops={0: LoopSpec(invariant=_rfs_inv, locals=dict(modified_sessions=Seq(Ref("SessionInfo"))),
+                       ghost=lambda s: dict(src=[], rank=[]), ghost_vars=dict(src=Seq(Int), rank=Seq(Int)),
+                       ghost_step=lambda head, end: dict(
+                           src=_appended_if(end.modified_sessions.len > head.modified_sessions.len, head.src, head._k),
+                           rank=_appended_if(z3.BoolVal(True), head.rank, z3.If(end.modified_sessions.len > head.modified_sessions.len, head.modified_sessions.len, -1))))},
+)
+
+
+# ---------------------------------------------------------------------------- enforce_pilot_limit
+def _mr(s, ref):
+    """(value array, length) of SessionInfo.max_rates of an arbitrary session reference in state s"""
+    v = s.field_of(ref, "SessionInfo", "max_rates").v
+    return v.arrs[0], v.len
+
+
+def _epl_inv(s):
+    q, inf = s.active_sessions, s.infrastructure
+    j, t, r = z3.Int("j!epl"), z3.Int("t!epl"), z3.Const("r!epl", RefSort)
+    e = sess_at(s, q, j)
+    new_vals, new_len = _mr(s, e.ref)
+    old_vals, old_len = z3.Select(s.mr0_vals, e.ref), z3.Select(s.mr0_len, e.ref)
+    cap = ty.sel(inf.max_pilot.v.arrs[0], st_index(inf, e.station_id))
+    rv, rl = _mr(s, r)
+    listed = z3.Exists([j], z3.And(j >= 0, j < q.len, ty.sel(q.v.arrs[0], j) == r))
+    return [
+        ("processed_sessions_are_capped_at_their_stations_max_pilot", FA([j, t], z3.Implies(z3.And(j >= 0, j < s._k, t >= 0, t < old_len),
+            z3.And(new_len == old_len, ty.sel(new_vals, t) == z3.If(ty.sel(old_vals, t) <= cap, ty.sel(old_vals, t), cap))))),
+        ("processed_lengths_kept", FA([j], z3.Implies(z3.And(j >= 0, j < s._k), new_len == old_len), patterns=[ty.sel(q.v.arrs[0], j)])),
+        ("pending_sessions_untouched", FA([j], z3.Implies(z3.And(j >= s._k, j < q.len), z3.And(new_vals == old_vals, new_len == old_len)), patterns=[ty.sel(q.v.arrs[0], j)])),
+        ("other_sessions_untouched", FA([r], z3.Implies(z3.Not(listed), z3.And(rv == z3.Select(s.mr0_vals, r), rl == z3.Select(s.mr0_len, r))))),
+    ]
+
+
+def _epl_post(old, new, ret):
+    q, inf = old.active_sessions, old.infrastructure
+    j, t = z3.Int("j!epp"), z3.Int("t!epp")
+    e = sess_at(old, q, j)
+    old_vals, old_len = _mr(old, e.ref)
+    new_vals, new_len = _mr(new, e.ref)
+    cap = ty.sel(inf.max_pilot.v.arrs[0], st_index(inf, e.station_id))
+    return [
+        ("same_list", And(ret.len == q.len, ret.v.arrs[0] == q.v.arrs[0])),
+        ("C07.every_upper_bound_is_capped_at_the_stations_max_pilot", FA([j, t], z3.Implies(z3.And(j >= 0, j < q.len, t >= 0, t < old_len),
+            ty.sel(new_vals, t) == z3.If(ty.sel(old_vals, t) <= cap, ty.sel(old_vals, t), cap)))),
+        ("lengths_kept", FA([j], z3.Implies(z3.And(j >= 0, j < q.len), new_len == old_len), patterns=[ty.sel(q.v.arrs[0], j)])),
+    ]
+
+
+REG.contract(
+    PRE + "enforce_pilot_limit", params=dict(active_sessions=Seq(Ref("SessionInfo")), infrastructure=Ref("InfrastructureInfo")), ret=Seq(Ref("SessionInfo")),
+    requires=[C("infrastructure_wf", lambda s: infra_wf(s, s.infrastructure)), C("sessions", lambda s: sessions_ok(s, s.active_sessions, s.infrastructure))],
+    modifies=[("SessionInfo.max_rates", "ALL")],
+    ensures=[C("C07.enforce_pilot_limit", _epl_post)],
+    loops={0: LoopSpec(invariant=_epl_inv, modifies=[("SessionInfo.max_rates", "ALL")],
+                       ghost=lambda s: dict(mr0_vals=s.heap_array("SessionInfo.max_rates#0", z3.ArraySort(z3.IntSort(), z3.RealSort())),
+                                            mr0_len=s.heap_array("SessionInfo.max_rates#1", z3.IntSort())))},
+)
+
+
+# ---------------------------------------------------------------------------- reconcile_max_and_min
+def _rates(s, ref, field):
+    v = s.field_of(ref, "SessionInfo", field).v
+    return v.arrs[0], v.len
+
+
+def _rmm_post(old, new, ret):
+    t = z3.Int("t!rmm")
+    mx0, n = _rates(old, old.session.ref, "max_rates")
+    mn0, _ = _rates(old, old.session.ref, "min_rates")
+    mx1, n1 = _rates(new, old.session.ref, "max_rates")
+    mn1, m1 = _rates(new, old.session.ref, "min_rates")
+    conflict = ty.sel(mx0, t) < ty.sel(mn0, t)
+    return [
+        ("same_session", ret.ref == old.session.ref), ("lengths_kept", And(n1 == n, m1 == n)),
+        ("C07.conflicts_resolved_in_favour_of_the_chosen_bound", FA([t], z3.Implies(z3.And(t >= 0, t < n), z3.And(
+            ty.sel(mx1, t) == z3.If(z3.And(conflict, old.choose_min), ty.sel(mn0, t), ty.sel(mx0, t)),
+            ty.sel(mn1, t) == z3.If(z3.And(conflict, z3.Not(old.choose_min)), ty.sel(mx0, t), ty.sel(mn0, t)))))),
+        ("upper_bound_never_below_lower_bound_afterwards", FA([t], z3.Implies(z3.And(t >= 0, t < n), ty.sel(mx1, t) >= ty.sel(mn1, t)))),
+    ]
+
+
+REG.contract(
+    PRE + "reconcile_max_and_min", params=dict(session=Ref("SessionInfo"), choose_min=Bool), ret=Ref("SessionInfo"),
+    requires=[C("equal_lengths", lambda s: s.session.max_rates.len == s.session.min_rates.len)],
+    modifies=[("SessionInfo.max_rates", lambda s: [s.session]), ("SessionInfo.min_rates", lambda s: [s.session])],
+    ensures=[C("C07.reconcile_max_and_min", _rmm_post)])
+
+
+# ---------------------------------------------------------------------------- apply_upper_bound_estimate
+REG.schema("UpperBoundEstimatorBase")
+REG.contract(
+    "acnportal.algorithms.upper_bound_estimator.UpperBoundEstimatorBase.get_maximum_rates",
+    params=dict(self=Ref("UpperBoundEstimatorBase"), sessions=Seq(Ref("SessionInfo"))), ret=Map(Id, Real), modifies=[],
+    assumed="the rate estimator is user code: it returns some mapping session id -> upper bound (A) and writes nothing the algorithm reads",
+    ensures=[])
+
+REG.contract(
+    PRE + "expand_max_min_rates", params=dict(active_sessions=Seq(Ref("SessionInfo"))), ret=Seq(Ref("SessionInfo")), modifies=[],
+    ensures=[C("vectors_stay_as_they_are", lambda old, new, ret: And(ret.len == old.active_sessions.len, ret.v.arrs[0] == old.active_sessions.v.arrs[0]))],
+    loops={0: LoopSpec(invariant=lambda s: [])})
+
+
+def _bound_for(bounds, e):
+    """(has a bound, the bound) the estimator gives for this SESSION (looked up by session id)"""
+    m = bounds._v if hasattr(bounds, "_v") else bounds
+    return z3.Select(m.dom, e.session_id), z3.Select(m.arrs[0], e.session_id)
+
+
+def _capped(old_max_t, has, b, min_t):
+    c = z3.If(z3.And(has, b < old_max_t), b, old_max_t)          # min(old upper bound, estimator bound or infinity)
+    return z3.If(c < min_t, min_t, c)                            # never below the session's lower bound
+
+
+def _aub_inv(s):
+    q = s.active_sessions
+    j, t, r = z3.Int("j!aub"), z3.Int("t!aub"), z3.Const("r!aub", RefSort)
+    e = sess_at(s, q, j)
+    new_vals, new_len = _rates(s, e.ref, "max_rates")
+    mn_vals, mn_len = _rates(s, e.ref, "min_rates")
+    old_vals, old_len = z3.Select(s.mr0_vals, e.ref), z3.Select(s.mr0_len, e.ref)
+    has, b = _bound_for(s.upper_bounds, e)
+    rv, rl = _rates(s, r, "max_rates")
+    rmv, rml = _rates(s, r, "min_rates")
+    listed = z3.Exists([j], z3.And(j >= 0, j < q.len, ty.sel(q.v.arrs[0], j) == r))
+    return [
+        ("same_list", And(s.new_sessions.len == q.len, s.new_sessions.v.arrs[0] == q.v.arrs[0])),
+        ("lower_bounds_untouched", FA([r, t], z3.And(rml == z3.Select(s.mn0_len, r),
+                                                     z3.Implies(z3.And(t >= 0, t < rml), ty.sel(rmv, t) == ty.sel(z3.Select(s.mn0_vals, r), t))))),
+        ("processed_sessions_capped", FA([j, t], z3.Implies(z3.And(j >= 0, j < s._k, t >= 0, t < old_len),
+            ty.sel(new_vals, t) == _capped(ty.sel(old_vals, t), has, b, ty.sel(mn_vals, t))))),
+        ("processed_lengths_kept", FA([j], z3.Implies(z3.And(j >= 0, j < s._k), new_len == old_len), patterns=[ty.sel(q.v.arrs[0], j)])),
+        ("pending_sessions_untouched", FA([j], z3.Implies(z3.And(j >= s._k, j < q.len), z3.And(new_vals == old_vals, new_len == old_len)), patterns=[ty.sel(q.v.arrs[0], j)])),
+        ("other_sessions_untouched", FA([r], z3.Implies(z3.Not(listed), z3.And(rv == z3.Select(s.mr0_vals, r), rl == z3.Select(s.mr0_len, r))))),
+    ]
+
+
+def _aub_post(old, new, ret):
+    q = old.active_sessions
+    j, t = z3.Int("j!aup"), z3.Int("t!aup")
+    e = sess_at(old, q, j)
+    old_vals, old_len = _rates(old, e.ref, "max_rates")
+    mn_vals, _ = _rates(old, e.ref, "min_rates")
+    new_vals, new_len = _rates(new, e.ref, "max_rates")
+    has, b = _bound_for(new.ret_get_maximum_rates, e)
+    return [
+        ("same_list", And(ret.len == q.len, ret.v.arrs[0] == q.v.arrs[0])),
+        ("C07.upper_bound_is_min_of_old_bound_and_the_estimators_bound_for_that_session_but_not_below_the_lower_bound",
+         FA([j, t], z3.Implies(z3.And(j >= 0, j < q.len, t >= 0, t < old_len), ty.sel(new_vals, t) == _capped(ty.sel(old_vals, t), has, b, ty.sel(mn_vals, t))))),
+        ("lengths_kept", FA([j], z3.Implies(z3.And(j >= 0, j < q.len), new_len == old_len), patterns=[ty.sel(q.v.arrs[0], j)])),
+    ]
+
+
+def _rates_aligned(s, q):
+    j = z3.Int("j!ra")
+    e = sess_at(s, q, j)
+    return FA([j], z3.Implies(z3.And(j >= 0, j < q.len), z3.And(e.ref != 0, s.alloc_ref(e.ref), e.max_rates.len == e.min_rates.len)), patterns=[ty.sel(q.v.arrs[0], j)])
+
+
+def _objects_distinct(q):
+    j, j2 = z3.Int("j!od"), z3.Int("j2!od")
+    return FA([j, j2], z3.Implies(z3.And(j >= 0, j < j2, j2 < q.len), ty.sel(q.v.arrs[0], j) != ty.sel(q.v.arrs[0], j2)),
+              patterns=[z3.MultiPattern(ty.sel(q.v.arrs[0], j), ty.sel(q.v.arrs[0], j2))])
+
+
+REG.contract(
+    PRE + "apply_upper_bound_estimate", params=dict(ub_estimator=Ref("UpperBoundEstimatorBase"), active_sessions=Seq(Ref("SessionInfo"))), ret=Seq(Ref("SessionInfo")),
+    requires=[C("sessions", lambda s: And(_rates_aligned(s, s.active_sessions), _objects_distinct(s.active_sessions)))],
+    modifies=[("SessionInfo.max_rates", "ALL"), ("SessionInfo.min_rates", "ALL")],
+    ensures=[C("C07.apply_upper_bound_estimate", _aub_post)],
+    loops={0: LoopSpec(invariant=_aub_inv, modifies=[("SessionInfo.max_rates", "ALL"), ("SessionInfo.min_rates", "ALL")],
+                       ghost=lambda s: dict(mr0_vals=s.heap_array("SessionInfo.max_rates#0", z3.ArraySort(z3.IntSort(), z3.RealSort())),
+                                            mr0_len=s.heap_array("SessionInfo.max_rates#1", z3.IntSort()),
+                                            mn0_vals=s.heap_array("SessionInfo.min_rates#0", z3.ArraySort(z3.IntSort(), z3.RealSort())),
+                                            mn0_len=s.heap_array("SessionInfo.min_rates#1", z3.IntSort())))},
+)
